@@ -125,6 +125,26 @@ func writeAll(f *os.File, b []byte) {
 	}
 }
 
+// snapshotNorm is snapshot with CRLF / CR normalised to LF before hashing.
+func snapshotNorm(dir string) map[string]string {
+	out := map[string]string{}
+	filepath.Walk(dir, func(p string, info os.FileInfo, err error) error {
+		if err != nil || info.IsDir() || info.Mode()&os.ModeSymlink != 0 {
+			return nil
+		}
+		rel, _ := filepath.Rel(dir, p)
+		b, err := os.ReadFile(p)
+		if err != nil {
+			return nil
+		}
+		b = []byte(strings.ReplaceAll(strings.ReplaceAll(string(b), "\r\n", "\n"), "\r", "\n"))
+		s := sha256.Sum256(b)
+		out[filepath.ToSlash(rel)] = hex.EncodeToString(s[:])
+		return nil
+	})
+	return out
+}
+
 func snapshot(dir string) map[string]string {
 	out := map[string]string{}
 	filepath.Walk(dir, func(p string, info os.FileInfo, err error) error {
@@ -177,7 +197,7 @@ func inspect(args []string) {
 		}
 	}
 	cwd, _ := os.Getwd()
-	appendLog(log, map[string]any{"id": id, "phase": "begin", "cwd": cwd, "files": snapshot(".")})
+	appendLog(log, map[string]any{"id": id, "phase": "begin", "cwd": cwd, "files": snapshot("."), "files_norm": snapshotNorm(".")})
 	exit := 0
 	kill := 0
 	for _, a := range actions {
@@ -199,7 +219,7 @@ func inspect(args []string) {
 			fmt.Fprint(os.Stderr, parts[1])
 		}
 	}
-	appendLog(log, map[string]any{"id": id, "phase": "end", "cwd": cwd, "files": snapshot("."), "exit": exit, "kill": kill})
+	appendLog(log, map[string]any{"id": id, "phase": "end", "cwd": cwd, "files": snapshot("."), "files_norm": snapshotNorm("."), "exit": exit, "kill": kill})
 	if kill != 0 {
 		dieBySignal(kill)
 	}
